@@ -205,6 +205,99 @@ pub struct MixedInput {
     pub mid_start: usize,
 }
 
+/// A document nested far deeper than the generated trees ever are (28 .. 300 masters), over a recursive template specification
+/// (Root; Node at Root/(0-); Leaf, Blob at Root/(0-)/Node; Count at Root) or — one case in four — over a generated one, where such nesting
+/// is a hierarchy problem from the second level on and needs tolerance to be read at all.  The innermost 0-3 masters have unknown size and
+/// are followed by a sibling at a drawn outer level; `valid_only` keeps every size known and every element where its path allows it.
+pub fn gen_deep(t: &mut Tape, valid_only: bool) -> MixedInput {
+    use PathPart::{Global as G, Id};
+    let recursive = valid_only || !t.chance(1, 4);
+    let spec = if recursive {
+        let node = vec![Id(0x81), G((Some(0), None))];
+        let mut in_node = node.clone();
+        in_node.push(Id(0x82));
+        let s = std::rc::Rc::new(SpecTable::new(vec![
+            Elem { id: 0x81, ty: Ty::Master, path: vec![], name: "Root".into() },
+            Elem { id: 0x82, ty: Ty::Master, path: node, name: "Node".into() },
+            Elem { id: 0x83, ty: Ty::U, path: in_node.clone(), name: "Leaf".into() },
+            Elem { id: 0x84, ty: Ty::B, path: in_node, name: "Blob".into() },
+            Elem { id: 0x85, ty: Ty::U, path: vec![Id(0x81)], name: "Count".into() },
+            Elem { id: 0xEC, ty: Ty::B, path: vec![G((None, None))], name: "Void".into() },
+            Elem { id: 0xBF, ty: Ty::B, path: vec![G((Some(1), None))], name: "Crc32".into() },
+        ]));
+        crate::dynspec::set_current(s.clone());
+        SpecChoice::Dyn(s)
+    } else {
+        gen_spec_choice(t, SpecOpts::default())
+    };
+    let table = spec.table().clone();
+    let masters = table.masters();
+    let depth = match t.below(6) {
+        0 => 28 + t.below(8),
+        1 => 60 + t.below(8),
+        2 => 62 + t.below(5),
+        3 => 100 + t.below(40),
+        4 => 250 + t.below(60),
+        _ => 30 + t.below(5),
+    };
+    let leaves: Vec<&Elem> = table.elems.iter().filter(|e| e.ty != Ty::Master).collect();
+    let leaf_node = |t: &mut Tape| -> Node {
+        if recursive {
+            if t.chance(1, 2) { Node::leaf(0x83, Payload::U(t.below(1000) as u64)) } else { let n = t.below(20); Node::leaf(0x84, Payload::B(t.filler(n))) }
+        } else if leaves.is_empty() {
+            Node::leaf(0xEC, Payload::B(vec![0]))
+        } else {
+            let e = leaves[t.below(leaves.len())];
+            Node::leaf(e.id, match e.ty { Ty::U => Payload::U(7), Ty::I => Payload::I(-7), Ty::F => Payload::F(1.5f64.to_bits()), Ty::S => Payload::S("x".into()), _ => Payload::B(vec![1, 2, 3]) })
+        }
+    };
+    let pick_master = |t: &mut Tape| -> u64 { if recursive { 0x82 } else if masters.is_empty() { 0xEC } else { masters[t.below(masters.len())] } };
+    let unknown_inner = if valid_only { 0 } else { t.below(4) };
+    let sibling_level = t.below(depth.max(1));
+    // inside-out
+    let mut cur: Vec<Node> = vec![leaf_node(t)];
+    if t.chance(1, 2) {
+        cur.push(leaf_node(t));
+    }
+    for level in (0..depth).rev() {
+        let mut m = Node::master(pick_master(t), cur);
+        if depth - 1 - level < unknown_inner {
+            m.enc.unknown = true;
+            m.enc.size_w = 8;
+        } else if !valid_only && t.chance(1, 10) {
+            m.enc.size_w = 1 + t.below(8) as u8;
+        }
+        cur = vec![m];
+        if level == sibling_level || t.chance(1, 12) {
+            // something after the nested master at this level: a sibling master with a leaf, or a leaf
+            if t.chance(1, 2) {
+                let l = leaf_node(t);
+                cur.push(Node::master(pick_master(t), vec![l]));
+            } else {
+                cur.push(leaf_node(t));
+            }
+        }
+    }
+    let mut forest = if recursive {
+        let mut top = cur;
+        if t.chance(1, 2) {
+            top.push(Node::leaf(0x85, Payload::U(3)));
+        }
+        vec![Node::master(0x81, top)]
+    } else {
+        cur
+    };
+    fix_widths(&mut forest);
+    let (bytes, lay) = ref_encode(&forest);
+    let (bytes, origin, mutations) = if !valid_only && t.chance(1, 3) {
+        let (b, m) = mutate(t, &bytes, &lay, &table);
+        (b, Origin::Mutated, m)
+    } else {
+        (bytes, Origin::Valid, vec![])
+    };
+    MixedInput { spec, forest, bytes, origin, mutations, mid_start: 0 }
+}
+
 #[derive(Clone, Copy)]
 pub struct MixOpts {
     pub weights: [u32; 6],
